@@ -84,6 +84,21 @@ type tester struct {
 	batch [][]byte
 	// baseline: bytes one evaluation of the empty input allocates (connection, replacer, ...)
 	baseline uint64
+	// the input evaluated just before on the same loaded matcher (history of a failure)
+	prev    []byte
+	hasPrev bool
+}
+
+func (t *tester) fail(in []byte, sig, msg string) {
+	one := *t.sc
+	one.Input = hex.EncodeToString(in)
+	if t.hasPrev {
+		p := *t.sc
+		p.Input = hex.EncodeToString(t.prev)
+		t.rep.SetHistory([]runner.HistItem{runner.Item(&p, nil)})
+	}
+	t.rep.Fail(&one, sig, msg, nil)
+	t.rep.SetHistory(nil)
 }
 
 func hashStr(s string) uint64 {
@@ -118,19 +133,16 @@ func (t *tester) one(in []byte, measure bool) {
 	}
 	t.rep.Outcome(hashStr(t.l.Spec.Module + "|" + v.V + "|" + v.Err))
 	if v.V == "panic" {
-		one := *t.sc
-		one.Input = hex.EncodeToString(in)
-		t.rep.Fail(&one, sigOf(t.l, v), fmt.Sprintf("matcher %s panics on input %x (%d bytes): %s at %s", t.l.Spec, in, len(in), v.Err, v.Stack), nil)
+		t.fail(in, sigOf(t.l, v), fmt.Sprintf("matcher %s panics on input %x (%d bytes): %s at %s", t.l.Spec, in, len(in), v.Err, v.Stack))
 	}
 	if measure {
 		var after runtime.MemStats
 		runtime.ReadMemStats(&after)
 		if d := after.TotalAlloc - before.TotalAlloc; d > allocLimit+32*1024 {
-			one := *t.sc
-			one.Input = hex.EncodeToString(in)
-			t.rep.Fail(&one, "alloc:"+t.l.Spec.Module, fmt.Sprintf("matcher %s allocates %d bytes (limit %d) on input %x", t.l.Spec, d, allocLimit, in), nil)
+			t.fail(in, "alloc:"+t.l.Spec.Module, fmt.Sprintf("matcher %s allocates %d bytes (limit %d) on input %x", t.l.Spec, d, allocLimit, in))
 		}
 	}
+	t.prev, t.hasPrev = append(t.prev[:0], in...), true
 }
 
 // flush evaluates the batch, measuring allocation for the whole batch and, only if the
@@ -280,6 +292,31 @@ func main() {
 			in, _ := hex.DecodeString(sc.Input)
 			rep := runner.NewReport()
 			t := &tester{l: l, rep: rep, sc: sc}
+			t.one(in, true)
+			var out []explore.Failure
+			for _, f := range rep.Failures {
+				out = append(out, explore.Failure{Sig: f.Sig, Msg: f.Msg})
+			}
+			return out
+		},
+		ReplayH: func(hist []runner.HistItem, scAny any, _ []int) []explore.Failure {
+			sc := scAny.(*Scn)
+			l, err := mrun.Load(sc.Spec)
+			if err != nil {
+				return nil
+			}
+			defer l.Close()
+			rep := runner.NewReport()
+			t := &tester{l: l, rep: rep, sc: sc}
+			for _, it := range hist {
+				hs := &Scn{}
+				json.Unmarshal(it.Scenario, hs)
+				b, _ := hex.DecodeString(hs.Input)
+				t.one(b, false)
+			}
+			rep = runner.NewReport()
+			t.rep = rep
+			in, _ := hex.DecodeString(sc.Input)
 			t.one(in, true)
 			var out []explore.Failure
 			for _, f := range rep.Failures {
